@@ -43,6 +43,10 @@ def cases(tier):
                 if count == EOF and pos == "mid":
                     continue
                 yield (ename, flabel, pos)
+    # an inline (nested) declaration between the count field and the array: the count is still the field, also when a constant has its name
+    for ename in ("uint8", "int16", "uint24", "char", "in_t"):
+        for flabel in ("[n0]", "[n0]#n0=7", "[K+n0]", "[n0*2]"):
+            yield (ename, flabel, "inline")
     for ename in ("uint8", "int16", "uint24", "char", "wchar", "in_t", "E16s"):
         for dlabel, dims in INNER_DIMS:
             for pos in ("last", "mid"):
@@ -70,6 +74,9 @@ def build(ename, flabel, pos):
     if "ak" in flabel:
         # the count comes from a member of an anonymous structure read before the array (a field of the parent, too)
         fs.append(TField(None, TStruct("__anon_k", (TField("ak", INTS["uint8"]), TField("al", INTS["uint8"])))))
+    if pos == "inline":
+        fs.append(TField("inl", TStruct("__anon_inl", (TField("iq", INTS["uint8"]), TField("ir", INTS["uint16"])))))
+        fs.append(TField("inu", TStruct("__anon_inu", (TField("uq", INTS["uint8"]), TField("ur", INTS["uint8"])), union=True)))
     fs.append(TField("f", t))
     if pos == "mid":
         fs.append(TField("tail", INTS["uint16"]))
